@@ -41,6 +41,30 @@ def typed_scripts(rng, scripts):
     return out
 
 
+INT_RANGES = {"i8": (-2**7, 2**7 - 1), "u8": (0, 2**8 - 1), "i16": (-2**15, 2**15 - 1), "u16": (0, 2**16 - 1), "i32": (-2**31, 2**31 - 1),
+              "u32": (0, 2**32 - 1), "i64": (-2**63, 2**63 - 1), "u64": (0, 2**64 - 1), "isize": (-2**63, 2**63 - 1), "usize": (0, 2**64 - 1)}
+
+
+def int_edge_cases():
+    """decimal literals at the exact rounding edges of every integer target (MIN - .5, MAX + .5 and neighbours, huge
+    exponents, many digits), pulled with the typed conversion: overflow in the float fallback shows as a panic in debug"""
+    out = []
+    for t, (lo, hi) in INT_RANGES.items():
+        lits = []
+        for b in (lo, hi, lo - 1, hi + 1, 0, 2**53, -2**53, 2**24, 2**63, 2**64):
+            for frac in ("", ".", ".0", ".4", ".49999999999999999", ".5", ".50000000000000001", ".6", "e0", ".5e0"):
+                sgn = "-" if b < 0 else ""
+                lits.append("%s%d%s" % (sgn, abs(b), frac))
+        lits += ["-0.5", "-.5", "-0.50000001", "-0.4", "-0", "-0.0", ".5", "1e19", "1e20", "-1e19", "1e39", "1e309", "-1e309", "1e-400", "5e-1",
+                 "%de-1" % (hi * 10 + 5), "%de-1" % (lo * 10 - 5), "0.%s1" % ("0" * 400), "9" * 40, "-" + "9" * 40, "9" * 400 + "e-380"]
+        sub = [("L", b"A", False, 1)]
+        sc = {1: (["r:" + t], ["r:" + t, "di1"])}
+        msgs = [b"A " + l.encode() for l in lits] + [b"A? " + l.encode() for l in lits[::3]]
+        for i in range(0, len(msgs), 25):
+            out.append(mk(treegen.case_line("v", sub, sc, msgs[i:i + 25]), model=True))
+    return out
+
+
 def corpus():
     sub = [("L", b"CMD", False, 1), ("L", b"*ARB", False, 2), ("B", b"SYSTem", False, [("L", b"VERSion", True, 3)]), ("L", b"SUM", False, 4)]
     raw = {1: (["r", "o"], ["r", "di1"]), 2: (["o"], ["o", "di2"]), 3: ([], ["di3"]), 4: (["r", "r"], ["r", "r", "di4"])}
@@ -54,7 +78,7 @@ def corpus():
     for m in msgs:
         out.append(mk(treegen.case_line("v", sub, ty, [m]), model=False))
         out.append(mk(treegen.case_line("v", sub, raw, [m]), model=True))
-    return out
+    return out + int_edge_cases()
 
 
 def generate(rng, tier):
